@@ -3,7 +3,7 @@
    before them).  Only statements, witnesses and Print Assumptions here. *)
 From Coq Require Import ZArith List Bool.
 From Verif Require Import Lib.Bytes Model.Ledger Proofs.LedgerBalance Proofs.LedgerInv Proofs.LedgerGroups
-  Proofs.LedgerWitness.
+  Proofs.LedgerDb Proofs.LedgerWitness.
 Import ListNotations.
 Open Scope Z_scope.
 
@@ -69,6 +69,83 @@ Theorem reload_equal : forall s,
   (forall g mc, utxos (fst (step s Reopen)) g mc = utxos s g mc) /\
   snd (step (fst (step s Reopen)) Utxos) = snd (step s Utxos).
 Proof. exact reload_equal_proof. Qed.
+
+(* ---------------------------------------------------------------- the database file
+   [dbase]: the wallets of one sqlite file, each with the view of its live Wallet object (session) and its committed
+   rows; [db_step] = [db_step_gen lib_variant] mirrors the code as it is.  Synced w: the committed rows of w are the
+   rows its live object sees.  DbInv D: every wallet of D satisfies Inv and is Synced. *)
+
+(* durability, for EVERY operation kind (delete included) and without any precondition: after the operation the
+   committed rows of every wallet are what its live object sees *)
+Theorem durable_step : forall v D wid o,
+  v_del_commits v = true -> DbSynced D -> DbSynced (fst (db_step_gen v D wid o)).
+Proof. exact synced_step_proof. Qed.
+
+(* ... so a second Wallet object on the file, another process, or the wallet after close + reopen reads the same
+   keys, transactions (ids, inputs, outputs, amounts, raw bytes), and unspent outputs of every group *)
+Theorem second_object_reads_live : forall w,
+  Synced w ->
+  persisted (open_disk w) = persisted (wl_live w) /\
+  l_default (open_disk w) = l_default (wl_live w) /\
+  (forall g mc, utxos (open_disk w) g mc = utxos (wl_live w) g mc) /\
+  persisted (fst (step (open_disk w) Reopen)) = persisted (wl_live w).
+Proof. exact second_object_reads_live_proof. Qed.
+
+(* reload_equal after every operation of any history over the file, for every wallet of the file *)
+Theorem reload_equal_every_op : forall xs w,
+  In w (db_run lib_variant [] xs) ->
+  persisted (open_disk w) = persisted (wl_live w) /\
+  l_default (open_disk w) = l_default (wl_live w) /\
+  (forall g mc, utxos (open_disk w) g mc = utxos (wl_live w) g mc) /\
+  persisted (fst (step (open_disk w) Reopen)) = persisted (wl_live w).
+Proof. exact reload_equal_every_op_proof. Qed.
+
+(* an operation on one wallet keeps the invariant (and the durability) of EVERY wallet of the file *)
+Theorem db_inv_step : forall v D wid o,
+  good v -> DbInv D -> db_op_ok D wid o = true -> DbInv (fst (db_step_gen v D wid o)).
+Proof. exact db_inv_step_proof. Qed.
+
+Theorem db_inv_reachable : forall v xs,
+  good v -> forall D, DbInv D -> db_ops_ok v D xs = true -> DbInv (db_run v D xs).
+Proof. exact db_inv_run_proof. Qed.
+
+(* the property for every wallet of the file after any guarded history over the file *)
+Theorem db_ledger_consistent : forall xs,
+  db_ops_ok lib_variant [] xs = true ->
+  forall w, In w (db_run lib_variant [] xs) ->
+  let s' := fst (step (wl_live w) Balance) in
+  forall g,
+  reported s' g = usum s' g /\ ksum s' g = usum s' g /\
+  (forall mc u, In u (utxos s' g mc) -> spent_by_sent (l_txs s') (u_txid u) (u_n u) = false).
+Proof. exact db_ledger_consistent_proof. Qed.
+
+(* an operation on one wallet leaves every other wallet of the file exactly as it was (session view and committed
+   rows), unless it is a send() consuming an outpoint which the other wallet lists as unspent *)
+Theorem other_wallets_untouched : forall v D wid o x,
+  In x D -> wl_id x <> wid -> touches_others v D wid o = false -> In x (fst (db_step_gen v D wid o)).
+Proof. exact other_wallets_untouched_proof. Qed.
+
+(* without the guard: the other wallet is as it was or carries the spent marks of the transaction just sent, nothing
+   else (keys, key balances and in-memory balances are those of before: mark_wal changes transaction rows only) *)
+Theorem other_wallets_only_marked : forall v D wid o x,
+  In x D -> wl_id x <> wid ->
+  In x (fst (db_step_gen v D wid o)) \/
+  (exists d, o = Store true d /\ v_mark_all v = true /\ In (mark_wal (d_ins d) x) (fst (db_step_gen v D wid o))).
+Proof. exact other_wallets_only_marked_proof. Qed.
+
+(* with a send() restricted to the rows of its own wallet the guard is not needed *)
+Theorem other_wallets_untouched_isolated : forall v D wid o x,
+  v_mark_all v = false -> In x D -> wl_id x <> wid -> In x (fst (db_step_gen v D wid o)).
+Proof. exact other_wallets_untouched_isolated_proof. Qed.
+
+(* delete re-opens only outpoints the deleted transaction consumed: whatever is listed as unspent afterwards was
+   listed before or is (txid, output_n) of one of ITS inputs — sibling outputs of the same funding transaction,
+   consumed by other transactions, stay spent *)
+Theorem delete_reopens_only_its_inputs : forall s txid d g mc u,
+  find_tx (l_txs s) txid = Some d ->
+  In u (utxos (delete_tx true txid s) g mc) ->
+  In u (utxos s g mc) \/ consumed (t_ins d) (u_txid u) (u_n u) = true.
+Proof. exact delete_reopens_only_its_inputs_proof. Qed.
 
 (* ---------------------------------------------------------------- witnesses *)
 (* non-vacuity: a history with receive, send with change, second send spending the change, reopen and delete of
@@ -145,6 +222,87 @@ Example restore_refuted :
   spent_by_sent (l_txs s') 901 1 = true.
 Proof. vm_compute. repeat split. Qed.
 
+(* non-vacuity, several outputs of one funding transaction: 301:0 (key 6) and 301:1 (key 8) are spent by two sent
+   transactions; deleting the second one re-opens 301:1 only, 301:0 stays spent and the balance is 50 000 *)
+Example siblings_ok :
+  let ops := [NewKey 6 G0 5; NewKey 8 G0 5; recv2; Select G0 1 [(301, 0)]; Store true pay_x;
+              Select G0 1 [(301, 1)]; Store true pay_y; Delete 912; Balance] in
+  ops_ok (init G0 true) ops = true /\
+  let s := run (init G0 true) ops in
+  reported s G0 = 50000 /\ usum s G0 = 50000 /\ ksum s G0 = 50000 /\
+  map (fun u => (u_txid u, u_n u)) (utxos s G0 0) = [(301, 1)] /\
+  spent_by_sent (l_txs s) 301 0 = true /\ spent_by_sent (l_txs s) 301 1 = false.
+Proof. vm_compute. repeat split. Qed.
+
+(* non-vacuity, two wallets in one file which both registered 101:0 and 102:0 (wallet 1 first); wallet 2 spends
+   101:0.  Every precondition holds; wallet 2 reports 139 995 301 = its unspent outputs = its key balances; the send
+   reached into wallet 1 (touches_others), whose row of 101:0 is spent now and whose balance() then reports
+   100 000 000 = its unspent outputs = its key balances; both wallets are durable *)
+Example file_history_ok :
+  db_ops_ok lib_variant [] file_history = true /\
+  let D := db_run lib_variant [] file_history in
+  match find_wal D 1, find_wal D 2 with
+  | Some w1, Some w2 =>
+      reported (wl_live w2) G0 = 139995301 /\ usum (wl_live w2) G0 = 139995301 /\ ksum (wl_live w2) G0 = 139995301 /\
+      map (fun u => (u_txid u, u_n u)) (utxos (wl_live w1) G0 0) = [(102, 0)] /\
+      wl_disk w1 = persisted (wl_live w1) /\ wl_disk w2 = persisted (wl_live w2) /\
+      let s1 := fst (step (wl_live w1) Balance) in
+      reported s1 G0 = 100000000 /\ usum s1 G0 = 100000000 /\ ksum s1 G0 = 100000000
+  | _, _ => False
+  end.
+Proof. vm_compute. repeat split. Qed.
+
+(* the guard of other_wallets_untouched is needed for the code as it is: before wallet 2 sends, wallet 1 lists
+   101:0 and 102:0; the send reaches into wallet 1 (class predicate touches_others) and wallet 1 lists 102:0 only,
+   its key 6 still carrying the balance 200 000 000 until its next balance().  With a send() restricted to its own
+   wallet (v_mark_all = false) wallet 1 is what it was *)
+Example other_wallets_untouched_refuted :
+  let D := db_run lib_variant [] (firstn 9 file_history) in
+  let o := Store true pay_w2 in
+  touches_others lib_variant D 2 o = true /\
+  match find_wal D 1, find_wal (fst (db_step D 2 o)) 1,
+        find_wal (fst (db_step_gen (mkVar true true true false false) D 2 o)) 1 with
+  | Some w1, Some w1', Some w1'' =>
+      map (fun u => (u_txid u, u_n u)) (utxos (wl_live w1) G0 0) = [(101, 0); (102, 0)] /\
+      map (fun u => (u_txid u, u_n u)) (utxos (wl_live w1') G0 0) = [(102, 0)] /\
+      map k_bal (l_keys (wl_live w1')) = [200000000; 0] /\ usum (wl_live w1') G0 = 100000000 /\
+      map (fun u => (u_txid u, u_n u)) (utxos (wl_live w1'') G0 0) = [(101, 0); (102, 0)]
+  | _, _, _ => False
+  end.
+Proof. vm_compute. repeat split. Qed.
+
+(* durable_step needs "delete ends in a commit": in the variant without it the wallet object no longer holds the
+   deleted transaction 901 and lists 101:0 again, while a second Wallet object on the file (open_disk) still finds 901
+   and does not list 101:0; in the code as it is both agree *)
+Example delete_uncommitted_refuted :
+  let xs := [DCreate 1 G0 true; DOp 1 (NewKey 6 G0 5); DOp 1 (NewKey 8 G0 5); DOp 1 recv; DOp 1 (Store true pay_a);
+             DOp 1 (Delete 901)] in
+  match find_wal (db_run nocommit_variant [] xs) 1, find_wal (db_run lib_variant [] xs) 1 with
+  | Some w, Some w' =>
+      has_tx (l_txs (wl_live w)) 901 = false /\ has_tx (l_txs (open_disk w)) 901 = true /\
+      map (fun u => (u_txid u, u_n u)) (utxos (wl_live w) G0 0) = [(101, 0); (102, 0)] /\
+      map (fun u => (u_txid u, u_n u)) (utxos (open_disk w) G0 0) = [(102, 0); (901, 1)] /\
+      has_tx (l_txs (open_disk w')) 901 = false /\
+      map (fun u => (u_txid u, u_n u)) (utxos (open_disk w') G0 0) = [(101, 0); (102, 0)]
+  | _, _ => False
+  end.
+Proof. vm_compute. repeat split. Qed.
+
+(* recorded finding delete_shared_txid: delete() looks its transaction row up by txid only; when another wallet of
+   the file holds a transaction with the same id the call raises and nothing changes (DRefused).  With the lookup
+   restricted to the wallet (own_variant, fixes/C08-8) wallet 1 loses its row of 101 and wallet 2 keeps its own *)
+Example delete_shared_refused :
+  let D := db_run lib_variant [] (firstn 8 file_history) in
+  delete_blocked lib_variant D 1 (Delete 101) = true /\
+  snd (db_step D 1 (Delete 101)) = DRefused /\ fst (db_step D 1 (Delete 101)) = D /\
+  match find_wal (fst (db_step_gen own_variant D 1 (Delete 101))) 1,
+        find_wal (fst (db_step_gen own_variant D 1 (Delete 101))) 2, find_wal D 2 with
+  | Some w1, Some w2, Some w2' => has_tx (l_txs (wl_live w1)) 101 = false /\ has_tx (snd (wl_disk w1)) 101 = false /\
+                                  has_tx (l_txs (wl_live w2)) 101 = true /\ w2 = w2'
+  | _, _, _ => False
+  end.
+Proof. vm_compute. repeat split. Qed.
+
 Print Assumptions inv_init.
 Print Assumptions inv_step.
 Print Assumptions inv_reachable.
@@ -156,3 +314,13 @@ Print Assumptions balance_of_value.
 Print Assumptions no_cross_reachable.
 Print Assumptions select_never_spent.
 Print Assumptions reload_equal.
+Print Assumptions durable_step.
+Print Assumptions second_object_reads_live.
+Print Assumptions reload_equal_every_op.
+Print Assumptions db_inv_step.
+Print Assumptions db_inv_reachable.
+Print Assumptions db_ledger_consistent.
+Print Assumptions other_wallets_untouched.
+Print Assumptions other_wallets_only_marked.
+Print Assumptions other_wallets_untouched_isolated.
+Print Assumptions delete_reopens_only_its_inputs.
